@@ -153,6 +153,11 @@ def process_chunk(args: Tuple[List[Dict[str, Any]], int, int]) -> Dict[str, Any]
 
     for rec, rq_obj, pr_obj in zip(recs, reqs, resps):
         ps = rec["ps"]
+        if isinstance(rq_obj, codec.LoadFailure):
+            # a description of the envelope that the library cannot even load
+            for prop_ in ("C01", "C02", "C03", "C05", "C08"):
+                fail(prop_, "description_does_not_load", rec, "load", {"exc": rq_obj.exc})
+            continue
         rqm = bytes(rec["rq"])
         entries = [("response", pr_obj, rqm)]
         if not has_kind(ps, ("MATCHING-REQUEST-PARAM",)):
@@ -310,6 +315,12 @@ def process_chunk_c04(args: Tuple[List[Dict[str, Any]], int, int]) -> Dict[str, 
           "spec_reject_real_accept": 0}
     for rec, rq_obj, pr_obj in zip(recs, reqs, resps):
         ps = rec["ps"]
+        if isinstance(rq_obj, codec.LoadFailure):
+            # a description of the envelope that the library cannot even load
+            fails.append(("C04", "description_does_not_load", {"machine": "Codec", "entry": "load", **codec.shape(ps),
+                                                               "detail": {"exc": rq_obj.exc}, "outside_mask": False,
+                                                               "ps": ps, "rq": rec["rq"]}))
+            continue
         rqm = bytes(rec["rq"])
         entries = [("response", pr_obj, rqm)]
         if not has_kind(ps, ("MATCHING-REQUEST-PARAM",)):
